@@ -145,6 +145,8 @@ fn get_mut<'a>(v: &'a mut Value, path: &[String]) -> Option<&'a mut Value> {
 const VOCAB: [&str; 14] = ["mappings", "from", "to", "repeat", "absorbing", "row", "letters", "Special", "keys", "delay_ms", "interval_ms", "Normal", "Disabled", "no_repeat_keys"];
 
 fn odd_string(rng: &mut Rng) -> Value {
+  // a word the implementation itself uses somewhere (mined from its string literals), as a key name or an alias name
+  if rng.chance(1, 10) { let t = rng.pick(crate::dict::all()).clone(); return json!(if rng.chance(1, 3) { format!("@{}", t) } else { t }); }
   if rng.chance(1, 8) { let mut s = stuffing(rng); if rng.chance(1, 2) { s.insert(0, '@'); } return json!(s); }
   let opts: Vec<String> = vec![
     "".into(), "@".into(), "@undefined".into(), "@shift".into(), "a".into(), "capslock".into(), "KEY_A".into(), "NOSUCHKEY".into(), "é".into(), "A ".into(),
@@ -217,7 +219,7 @@ pub fn mutate(v: &Value, rng: &mut Rng) -> Value {
       match kind {
         0 | 1 => *node = odd_value(rng, 0),
         2 => if let Value::Object(o) = node { let keys: Vec<String> = o.keys().cloned().collect(); if !keys.is_empty() { o.remove(rng.pick(&keys)); } },
-        3 => if let Value::Object(o) = node { o.insert(rng.pick(&VOCAB).to_string(), odd_value(rng, 1)); },
+        3 => if let Value::Object(o) = node { let key = if rng.chance(1, 6) { rng.pick(crate::dict::all()).clone() } else { rng.pick(&VOCAB).to_string() }; o.insert(key, odd_value(rng, 1)); },
         4 => if let Value::Array(a) = node { a.clear(); },
         5 => if let Value::Array(a) = node { if !a.is_empty() { let i = rng.below(a.len()); let x = a[i].clone(); let j = rng.below(a.len() + 1); a.insert(j, x); } },   // repeated element
         6 => if let Value::Array(a) = node { if a.len() >= 2 { let i = rng.below(a.len()); let j = rng.below(a.len()); a.swap(i, j); } },
@@ -292,7 +294,7 @@ pub fn run(opts: &Opts) -> i32 {
   // every base unmutated first (they must all be accepted and drivable)
   for b in &bases { load_and_drive(&serde_json::to_vec_pretty(b).unwrap(), "corpus_unmutated", &ctx, &mut rng, &mut out); }
 
-  let n = opts.num("inputs", if thorough { 400_000 } else { 25_000 });
+  let n = opts.num("inputs", if thorough { 800_000 } else { 50_000 });
   for i in 0..n {
     match i % 10 {
       0..=3 => {
